@@ -861,4 +861,93 @@ Proof.
   - intros j o Hj. rewrite nth_ev. apply (O j o Hj).
 Qed.
 
+(* ---------------------------------------------------------------- executable form of the documented meaning
+   [semb] decides [sem] (for the free cases - DivUnchecked 0/0, hint outputs - it accepts what the given results
+   make true); [trace_semb] checks a whole value trace.  Used to cross-check this field-generic statement of the
+   documented meaning against the evaluator Frontend/Spec.v on the harness programs (Frontend/SemCases.v). *)
+Definition isbb (x : F) : bool := feqb x 0 || feqb x 1.
+Definition nres (k : opk) : nat :=
+  match k with
+  | OAssertEq | OAssertDiff | OAssertBool | OAssertLeq => 0
+  | OHint2 => 2
+  | OToBinary n => n
+  | _ => 1
+  end.
+
+Definition one_resb (rs : list F) (x : F) : bool := match rs with [r] => feqb r x | _ => false end.
+Definition no_resb (rs : list F) : bool := match rs with [] => true | _ => false end.
+
+Definition semb (k : opk) (a rs : list F) : bool :=
+  let a0 := nth 0 a 0 in let a1 := nth 1 a 0 in let a2 := nth 2 a 0 in
+  let one_res := one_resb rs in
+  let no_res := no_resb rs in
+  match k with
+  | OAdd => one_res (sumF a)
+  | OSub => one_res (subF a)
+  | ONeg => one_res (opp a0)
+  | OMul => one_res (fold_left mul a 1)
+  | OMulAcc => one_res (a0 + a1 * a2)
+  | ODiv => negb (feqb a1 0) && one_res (a0 / a1)
+  | ODivUnchecked => match rs with [q] => if feqb a1 0 then feqb a0 0 else feqb q (a0 / a1) | _ => false end
+  | OInverse => negb (feqb a0 0) && one_res (inv a0)
+  | OFromBinary => forallb isbb a && one_res (fbvF 1%Z a)
+  | OXor => isbb a0 && isbb a1 && one_res (a0 + a1 - (1 + 1) * a0 * a1)
+  | OOr => isbb a0 && isbb a1 && one_res (a0 + a1 - a0 * a1)
+  | OAnd => isbb a0 && isbb a1 && one_res (a0 * a1)
+  | OSelect => isbb a0 && one_res (sel a0 a1 a2)
+  | OLookup2 => isbb a0 && isbb a1 && one_res (lk2 a0 a1 a2 (nth 3 a 0) (nth 4 a 0) (nth 5 a 0))
+  | OIsZero => one_res (isz a0)
+  | OAssertEq => feqb a0 a1 && no_res
+  | OAssertDiff => negb (feqb a0 a1) && no_res
+  | OAssertBool => isbb a0 && no_res
+  | OHint2 => match rs with [_; _] => true | _ => false end
+  | OToBinary _ | OCmp | OAssertLeq => false
+  end.
+
+Lemma isbb_sound x : isbb x = true -> is_bool x.
+Proof. apply is_bool_01. Qed.
+
+Lemma semb_sound k a rs : semb k a rs = true -> sem k a rs.
+Proof.
+  assert (ONE : forall x, one_resb rs x = true -> rs = [x]).
+  { intros x. unfold one_resb. destruct rs as [|r [|r' rs']]; try discriminate. intros H. apply feqb_true in H. rewrite H. reflexivity. }
+  assert (NO : no_resb rs = true -> rs = (@nil F)).
+  { unfold no_resb. destruct rs; [reflexivity|discriminate]. }
+  unfold semb, sem. destruct k; intros H;
+    repeat match type of H with (_ && _) = true => let H1 := fresh "H" in apply andb_true_iff in H; destruct H as [H H1] end;
+    repeat match goal with
+           | X : isbb _ = true |- _ => apply isbb_sound in X
+           | X : negb (feqb _ _) = true |- _ => apply negb_true_iff in X; apply feqb_false in X
+           | X : feqb _ _ = true |- _ => apply feqb_true in X
+           | X : no_resb rs = true |- _ => apply NO in X
+           | X : one_resb rs _ = true |- _ => apply ONE in X
+           end; auto.
+  - (* DivUnchecked *) destruct rs as [|q [|q' rs']]; try discriminate. exists q. split; [reflexivity|].
+    destruct (feqb (nth 1 a 0) 0) eqn:Z.
+    + right. split; apply feqb_true; assumption.
+    + left. split; [apply feqb_false; exact Z|apply feqb_true; exact H].
+  - discriminate.
+  - (* FromBinary *) split; [|assumption]. apply Forall_forall. intros x IN. apply isbb_sound. exact (proj1 (forallb_forall _ _) H x IN).
+  - discriminate.
+  - discriminate.
+  - (* Hint2 *) destruct rs as [|r0 [|r1 [|r2 rs']]]; try discriminate. eauto.
+Qed.
+
+Fixpoint trace_semb (prog : list op) (vs rest : list F) : bool :=
+  match prog with
+  | [] => match rest with [] => true | _ => false end
+  | o :: prog' =>
+      let n := nres (fst o) in
+      let rs := firstn n rest in
+      semb (fst o) (map (aval vs) (snd o)) rs && trace_semb prog' (vs ++ rs) (skipn n rest)
+  end.
+
+Lemma trace_semb_sound prog : forall vs rest, trace_semb prog vs rest = true -> trace_sem prog vs (vs ++ rest).
+Proof.
+  induction prog as [|o prog IH]; intros vs rest; cbn [trace_semb trace_sem].
+  - destruct rest; [intros _; apply app_nil_r|discriminate].
+  - intros H. apply andb_true_iff in H. destruct H as [H1 H2]. exists (firstn (nres (fst o)) rest).
+    split; [apply semb_sound; exact H1|]. apply IH in H2. rewrite <- app_assoc, firstn_skipn in H2. exact H2.
+Qed.
+
 End BP.
